@@ -23,7 +23,7 @@ theorem inv_of_reader (s : St) (i : Nat) (r' : R) (h : Inv s) (hr : RInv s.sh r'
 
 /-! ### writer steps -/
 
-theorem inv_wNew (s s' : St) (i : Nat) (bulk : List Doc) (h : Inv s) (hs : step s (.wNew i bulk) = some s') : Inv s' := by
+theorem inv_wNew (c : Cfg) (s s' : St) (i : Nat) (bulk : List Doc) (h : Inv s) (hs : step c s (.wNew i bulk) = some s') : Inv s' := by
   simp only [step] at hs
   split at hs <;> cases hs
   apply inv_of_writer s i _ _ h
@@ -32,7 +32,7 @@ theorem inv_wNew (s s' : St) (i : Nat) (bulk : List Doc) (h : Inv s) (hs : step 
   · exact ⟨h.sh.allLt, h.sh.tokOk, h.sh.posOk, h.sh.idsPos, fun d hd => List.mem_append_left _ (h.sh.idsSub d hd)⟩
   · refine ⟨fun _ d hd => List.mem_append_right _ hd, ?_, ?_, ?_, ?_⟩ <;> simp
 
-theorem inv_wBlock (s s' : St) (i : Nat) (h : Inv s) (hs : step s (.wBlock i) = some s') : Inv s' := by
+theorem inv_wBlock (c : Cfg) (s s' : St) (i : Nat) (h : Inv s) (hs : step c s (.wBlock i) = some s') : Inv s' := by
   simp only [step] at hs
   split at hs <;> cases hs
   rename_i hpc
@@ -42,7 +42,7 @@ theorem inv_wBlock (s s' : St) (i : Nat) (h : Inv s) (hs : step s (.wBlock i) = 
   · exact ⟨h.sh.allLt, h.sh.tokOk, fun id b off hl => Nat.lt_succ_of_lt (h.sh.posOk id b off hl), h.sh.idsPos, h.sh.idsSub⟩
   · refine ⟨fun _ d hd => h1 (by simp [hpc]) d hd, fun _ _ => Nat.lt_succ_self _, ?_, ?_, h5⟩ <;> simp
 
-theorem inv_wPos (s s' : St) (i : Nat) (h : Inv s) (hs : step s (.wPos i) = some s') : Inv s' := by
+theorem inv_wPos (c : Cfg) (s s' : St) (i : Nat) (h : Inv s) (hs : step c s (.wPos i) = some s') : Inv s' := by
   simp only [step] at hs
   split at hs <;> cases hs
   rename_i hpc
@@ -68,7 +68,7 @@ theorem inv_wPos (s s' : St) (i : Nat) (h : Inv s) (hs : step s (.wPos i) = some
       exact ⟨off, by rw [← hid]; exact ho⟩
     · simp
 
-theorem inv_wIds (s s' : St) (i : Nat) (h : Inv s) (hs : step s (.wIds i) = some s') : Inv s' := by
+theorem inv_wIds (c : Cfg) (s s' : St) (i : Nat) (h : Inv s) (hs : step c s (.wIds i) = some s') : Inv s' := by
   simp only [step] at hs
   split at hs <;> cases hs
   rename_i hpc
@@ -102,24 +102,24 @@ theorem inv_wIds (s s' : St) (i : Nat) (h : Inv s) (hs : step s (.wIds i) = some
       obtain ⟨d, hd, ht⟩ := h5 t ls hm l hl
       exact ⟨d, e.get hd, ht⟩
 
-theorem inv_wToks (s s' : St) (i : Nat) (h : Inv s) (hs : step s (.wToks i) = some s') : Inv s' := by
+theorem inv_wToks (c : Cfg) (s s' : St) (i : Nat) (h : Inv s) (hs : step c s (.wToks i) = some s') : Inv s' := by
   simp only [step] at hs
   split at hs <;> cases hs
   rename_i hpc
   obtain ⟨h1, h2, h3, h4, h5⟩ := h.ws i
-  have := inv_of_writer s i s.sh { s.ws i with pc := .queue, todo := queueCalls (s.ws i).toks (s.ws i).docs (s.ws i).base } h
+  have := inv_of_writer s i s.sh { s.ws i with pc := .queue, todo := queueCalls c.allLast (s.ws i).toks (s.ws i).docs (s.ws i).base } h
     (Ext.refl _) h.sh ?_
   · exact this
   · refine ⟨fun _ d hd => h1 (by simp [hpc]) d hd, fun _ _ => h2 (by simp [hpc]) (by simp [hpc]),
       fun _ _ _ d hd => h3 (by simp [hpc]) (by simp [hpc]) (by simp [hpc]) d hd,
       fun _ _ _ _ k d hd => h4 (by simp [hpc]) (by simp [hpc]) (by simp [hpc]) (by simp [hpc]) k d hd, ?_⟩
     intro t ls hm l hl
-    obtain ⟨k, d, hk, hl', ht⟩ := queueCalls_mem _ _ _ t ls hm l hl
+    obtain ⟨k, d, hk, hl', ht⟩ := queueCalls_mem _ _ _ _ t ls hm l hl
     refine ⟨d, ?_, ht⟩
     rw [hl']
     exact h4 (by simp [hpc]) (by simp [hpc]) (by simp [hpc]) (by simp [hpc]) k d hk
 
-theorem inv_wQueue (s s' : St) (i : Nat) (h : Inv s) (hs : step s (.wQueue i) = some s') : Inv s' := by
+theorem inv_wQueue (c : Cfg) (s s' : St) (i : Nat) (h : Inv s) (hs : step c s (.wQueue i) = some s') : Inv s' := by
   simp only [step] at hs
   split at hs
   · rename_i hpc
@@ -172,7 +172,7 @@ theorem inv_wQueue (s s' : St) (i : Nat) (h : Inv s) (hs : step s (.wQueue i) = 
         exact g5 t' ls' (by rw [htodo]; exact List.mem_cons_of_mem _ hm)
   · cases hs
 
-theorem inv_wStats (s s' : St) (i : Nat) (h : Inv s) (hs : step s (.wStats i) = some s') : Inv s' := by
+theorem inv_wStats (c : Cfg) (s s' : St) (i : Nat) (h : Inv s) (hs : step c s (.wStats i) = some s') : Inv s' := by
   simp only [step] at hs
   split at hs <;> cases hs
   rename_i hpc
@@ -185,7 +185,7 @@ theorem inv_wStats (s s' : St) (i : Nat) (h : Inv s) (hs : step s (.wStats i) = 
       fun _ _ _ d hd => h3 (by simp [hpc.1]) (by simp [hpc.1]) (by simp [hpc.1]) d hd,
       fun _ _ _ _ k d hd => h4 (by simp [hpc.1]) (by simp [hpc.1]) (by simp [hpc.1]) (by simp [hpc.1]) k d hd, h5⟩
 
-theorem inv_wDone (s s' : St) (i : Nat) (h : Inv s) (hs : step s (.wDone i) = some s') : Inv s' := by
+theorem inv_wDone (c : Cfg) (s s' : St) (i : Nat) (h : Inv s) (hs : step c s (.wDone i) = some s') : Inv s' := by
   simp only [step] at hs
   split at hs <;> cases hs
   rename_i hpc
@@ -206,14 +206,13 @@ macro "rinv_same" hr:ident : tactic => `(tactic| first
   | exact RInv.mapMids $hr | exact RInv.mapRids $hr | exact RInv.got $hr | exact RInv.res $hr
   | exact RInv.fetched $hr)
 
-theorem inv_rNew (s s' : St) (i : Nat) (q : Query) (a b : Nat) (h : Inv s) (hs : step s (.rNew i q a b) = some s') :
-    Inv s' := by
+theorem inv_rNew (c : Cfg) (s s' : St) (i : Nat) (q : Query) (a b : Nat) (h : Inv s) (hs : step c s (.rNew i q a b) = some s') : Inv s' := by
   simp only [step] at hs
   split at hs <;> cases hs
   apply inv_of_reader s i _ h
   constructor <;> simp [inR]
 
-theorem inv_rInfo (s s' : St) (i : Nat) (h : Inv s) (hs : step s (.rInfo i) = some s') : Inv s' := by
+theorem inv_rInfo (c : Cfg) (s s' : St) (i : Nat) (h : Inv s) (hs : step c s (.rInfo i) = some s') : Inv s' := by
   simp only [step] at hs
   split at hs
   · rename_i hpc
@@ -231,7 +230,7 @@ theorem inv_rInfo (s s' : St) (i : Nat) (h : Inv s) (hs : step s (.rInfo i) = so
       all_goals simp_all
   · cases hs
 
-theorem inv_rBlocks (s s' : St) (i : Nat) (h : Inv s) (hs : step s (.rBlocks i) = some s') : Inv s' := by
+theorem inv_rBlocks (c : Cfg) (s s' : St) (i : Nat) (h : Inv s) (hs : step c s (.rBlocks i) = some s') : Inv s' := by
   simp only [step] at hs
   split at hs <;> cases hs
   rename_i hpc
@@ -251,7 +250,7 @@ theorem inv_rBlocks (s s' : St) (i : Nat) (h : Inv s) (hs : step s (.rBlocks i) 
     exact ⟨_, b, off, hd, hp, h.sh.posOk _ b off hp⟩
   all_goals simp_all
 
-theorem inv_rMapping (s s' : St) (i : Nat) (h : Inv s) (hs : step s (.rMapping i) = some s') : Inv s' := by
+theorem inv_rMapping (c : Cfg) (s s' : St) (i : Nat) (h : Inv s) (hs : step c s (.rMapping i) = some s') : Inv s' := by
   simp only [step] at hs
   split at hs <;> cases hs
   rename_i hpc
@@ -263,7 +262,7 @@ theorem inv_rMapping (s s' : St) (i : Nat) (h : Inv s) (hs : step s (.rMapping i
   constructor <;> dsimp only <;> try (rinv_same hr)
   all_goals simp_all
 
-theorem inv_rMids (s s' : St) (i : Nat) (h : Inv s) (hs : step s (.rMids i) = some s') : Inv s' := by
+theorem inv_rMids (c : Cfg) (s s' : St) (i : Nat) (h : Inv s) (hs : step c s (.rMids i) = some s') : Inv s' := by
   simp only [step] at hs
   split at hs <;> cases hs
   rename_i hpc
@@ -275,7 +274,7 @@ theorem inv_rMids (s s' : St) (i : Nat) (h : Inv s) (hs : step s (.rMids i) = so
   case mapMids => intro _ l hl; exact h.sh.allLt l (hr.mapAll l hl)
   all_goals simp_all
 
-theorem inv_rRids (s s' : St) (i : Nat) (h : Inv s) (hs : step s (.rRids i) = some s') : Inv s' := by
+theorem inv_rRids (c : Cfg) (s s' : St) (i : Nat) (h : Inv s) (hs : step c s (.rRids i) = some s') : Inv s' := by
   simp only [step] at hs
   split at hs <;> cases hs
   rename_i hpc
@@ -288,7 +287,7 @@ theorem inv_rRids (s s' : St) (i : Nat) (h : Inv s) (hs : step s (.rRids i) = so
   case mapRids => intro _; exact hr.nmids
   all_goals simp_all
 
-theorem inv_rLeaf (s s' : St) (i : Nat) (h : Inv s) (hs : step s (.rLeaf i) = some s') : Inv s' := by
+theorem inv_rLeaf (c : Cfg) (s s' : St) (i : Nat) (h : Inv s) (hs : step c s (.rLeaf i) = some s') : Inv s' := by
   simp only [step] at hs
   split at hs
   · rename_i hpc
@@ -313,7 +312,7 @@ theorem inv_rLeaf (s s' : St) (i : Nat) (h : Inv s) (hs : step s (.rLeaf i) = so
       all_goals simp_all
   · cases hs
 
-theorem inv_rEval (s s' : St) (i : Nat) (h : Inv s) (hs : step s (.rEval i) = some s') : Inv s' := by
+theorem inv_rEval (c : Cfg) (s s' : St) (i : Nat) (h : Inv s) (hs : step c s (.rEval i) = some s') : Inv s' := by
   simp only [step] at hs
   split at hs <;> cases hs
   rename_i hpc
@@ -340,7 +339,7 @@ theorem inv_rEval (s s' : St) (i : Nat) (h : Inv s) (hs : step s (.rEval i) = so
       rw [hd] at hd'; cases hd'; exact ht
   all_goals simp_all
 
-theorem inv_rFetch (s s' : St) (i : Nat) (id : ID) (h : Inv s) (hs : step s (.rFetch i id) = some s') : Inv s' := by
+theorem inv_rFetch (c : Cfg) (s s' : St) (i : Nat) (id : ID) (h : Inv s) (hs : step c s (.rFetch i id) = some s') : Inv s' := by
   simp only [step] at hs
   split at hs <;> cases hs
   rename_i hpc
@@ -359,11 +358,11 @@ theorem inv_rFetch (s s' : St) (i : Nat) (id : ID) (h : Inv s) (hs : step s (.rF
       obtain ⟨rfl, rfl⟩ := hm
       obtain ⟨d', b, off, h1, h2, h3⟩ := hr.atPos l hl
       rw [hd] at h1; cases h1
-      refine ⟨b, off, ?_, h3⟩
+      refine ⟨b, off, ?_⟩
       simp [fetchOne, ← hid, h2, h3]
   all_goals simp_all
 
-theorem inv_rClose (s s' : St) (i : Nat) (h : Inv s) (hs : step s (.rClose i) = some s') : Inv s' := by
+theorem inv_rClose (c : Cfg) (s s' : St) (i : Nat) (h : Inv s) (hs : step c s (.rClose i) = some s') : Inv s' := by
   simp only [step] at hs
   split at hs <;> cases hs
   rename_i hpc
@@ -376,28 +375,28 @@ theorem inv_rClose (s s' : St) (i : Nat) (h : Inv s) (hs : step s (.rClose i) = 
   constructor <;> dsimp only <;> try (rinv_same hr)
   all_goals simp_all
 
-theorem inv_step (s : St) (l : Label) (s' : St) (h : Inv s) (hs : step s l = some s') : Inv s' := by
+theorem inv_step (c : Cfg) (s : St) (l : Label) (s' : St) (h : Inv s) (hs : step c s l = some s') : Inv s' := by
   cases l with
-  | wNew i b => exact inv_wNew s s' i b h hs
-  | wBlock i => exact inv_wBlock s s' i h hs
-  | wPos i => exact inv_wPos s s' i h hs
-  | wIds i => exact inv_wIds s s' i h hs
-  | wToks i => exact inv_wToks s s' i h hs
-  | wQueue i => exact inv_wQueue s s' i h hs
-  | wStats i => exact inv_wStats s s' i h hs
-  | wDone i => exact inv_wDone s s' i h hs
-  | rNew i q a b => exact inv_rNew s s' i q a b h hs
-  | rInfo i => exact inv_rInfo s s' i h hs
-  | rBlocks i => exact inv_rBlocks s s' i h hs
-  | rMapping i => exact inv_rMapping s s' i h hs
-  | rMids i => exact inv_rMids s s' i h hs
-  | rRids i => exact inv_rRids s s' i h hs
-  | rLeaf i => exact inv_rLeaf s s' i h hs
-  | rEval i => exact inv_rEval s s' i h hs
-  | rFetch i id => exact inv_rFetch s s' i id h hs
-  | rClose i => exact inv_rClose s s' i h hs
+  | wNew i b => exact inv_wNew c s s' i b h hs
+  | wBlock i => exact inv_wBlock c s s' i h hs
+  | wPos i => exact inv_wPos c s s' i h hs
+  | wIds i => exact inv_wIds c s s' i h hs
+  | wToks i => exact inv_wToks c s s' i h hs
+  | wQueue i => exact inv_wQueue c s s' i h hs
+  | wStats i => exact inv_wStats c s s' i h hs
+  | wDone i => exact inv_wDone c s s' i h hs
+  | rNew i q a b => exact inv_rNew c s s' i q a b h hs
+  | rInfo i => exact inv_rInfo c s s' i h hs
+  | rBlocks i => exact inv_rBlocks c s s' i h hs
+  | rMapping i => exact inv_rMapping c s s' i h hs
+  | rMids i => exact inv_rMids c s s' i h hs
+  | rRids i => exact inv_rRids c s s' i h hs
+  | rLeaf i => exact inv_rLeaf c s s' i h hs
+  | rEval i => exact inv_rEval c s s' i h hs
+  | rFetch i id => exact inv_rFetch c s s' i id h hs
+  | rClose i => exact inv_rClose c s s' i h hs
 
-theorem inv_reachable (s : St) (h : Reachable s) : Inv s :=
-  reachable_induct Inv inv_init inv_step s h
+theorem inv_reachable (c : Cfg) (s : St) (h : Reachable c s) : Inv s :=
+  reachable_induct c Inv inv_init (inv_step c) s h
 
 end SV.ActiveConc
